@@ -7,170 +7,9 @@
    Writer configuration: cfg0 = {| capmap := None; quick := None |} (identity slot map, full code). *)
 From Verif Require Import Base.Prelude Model.Tree Model.Spec Model.VM Model.Writer Gen.RunnerGen
   Proofs.SpecProofs Proofs.SpecBoundsProofs Proofs.MaskProofs
-  Proofs.VMU Proofs.VMUOps Proofs.VMUOps2 Proofs.CompileBase.
+  Proofs.VMU Proofs.VMUOps Proofs.VMUOps2 Proofs.VMUOps3 Proofs.CompileBase
+  Proofs.CompileDefs Proofs.CompileStage1.
 From Coq Require Import Relations ZifyBool.
-
-Definition cfg0 : wcfg := {| capmap := None; quick := None |}.
-
-(* ---------- the constructor set covered ---------- *)
-Fixpoint supported (t : node) : bool :=
-  match t with
-  | NChar _ _ _ | NAnchor _ | NNothing | NEmpty | NBump => true
-  | NConcat _ l => (fix go (l : list node) : bool := match l with [] => true | x :: l' => supported x && go l' end) l
-  | NAlternate _ l =>
-      match l with [] => false | _ => true end &&
-      (fix go (l : list node) : bool := match l with [] => true | x :: l' => supported x && go l' end) l
-  | NCapture _ g u r => (u =? -1) && supported r
-  | NGroup r => supported r
-  | _ => false
-  end.
-
-Definition supported_list (l : list node) : bool :=
-  (fix go (l : list node) : bool := match l with [] => true | x :: l' => supported x && go l' end) l.
-
-(* every group number used is a slot of the program *)
-Definition grp_ok_node (cs : Z) (t : node) : Prop :=
-  match t with
-  | NCapture _ g _ _ => 0 <= g < cs
-  | NRef _ g => 0 <= g < cs
-  | NBackRefCond _ g _ _ => 0 <= g < cs
-  | _ => True
-  end.
-Definition groups_ok (cs : Z) (t : node) : Prop := sb_all (grp_ok_node cs) t.
-
-(* ---------- length of the emitted code ---------- *)
-Lemma emit_seq_length c l : Forall (fun t => forall a tbl, zlen (fst (emit c t a tbl)) = csize c t) l ->
-  forall a tbl, zlen (fst (emit_seq c l a tbl)) = csize_seq c l.
-Proof.
-  induction 1 as [|x l Hx Hl IH]; intros a tbl; cbn [emit_seq csize_seq]; [reflexivity|].
-  specialize (Hx a tbl). destruct (emit c x a tbl) as [cx t1]. cbn [fst] in Hx.
-  specialize (IH (a + zlen cx) t1). destruct (emit_seq c l (a + zlen cx) t1) as [cr t2]. cbn [fst] in *.
-  rewrite zlen_app. lia.
-Qed.
-
-Lemma emit_alt_length c lend l : Forall (fun t => forall a tbl, zlen (fst (emit c t a tbl)) = csize c t) l ->
-  forall a tbl, zlen (fst (emit_alt c lend l a tbl)) = csize_alt c l.
-Proof.
-  induction 1 as [|x l Hx Hl IH]; intros a tbl; [reflexivity|].
-  destruct l as [|y l'].
-  - cbn [emit_alt csize_alt]. apply Hx.
-  - rewrite wr_emit_alt_cons2, wr_csize_alt_cons2.
-    specialize (Hx (a + 2) tbl). destruct (emit c x (a + 2) tbl) as [cx t1]. cbn [fst] in Hx.
-    cbv zeta. specialize (IH (a + 2 + zlen cx + 2) t1).
-    destruct (emit_alt c lend (y :: l') (a + 2 + zlen cx + 2) t1) as [cr t2]. cbn [fst] in *.
-    rewrite !zlen_app, !zlen_cons, zlen_nil. lia.
-Qed.
-
-Lemma emit_length c : forall t a tbl, zlen (fst (emit c t a tbl)) = csize c t.
-Proof.
-  induction t using node_ind'; intros aa tbl.
-  - reflexivity.
-  - cbn [emit csize fst]. destruct (0 <? m), (m <? n); reflexivity.
-  - cbn [emit csize]. destruct (string_code s tbl). reflexivity.
-  - reflexivity.
-  - reflexivity.
-  - reflexivity.
-  - reflexivity.
-  - reflexivity.
-  - rewrite wr_emit_concat_eq, wr_csize_concat_eq. apply emit_seq_length. assumption.
-  - rewrite wr_emit_alternate_eq, wr_csize_alternate_eq. apply emit_alt_length. assumption.
-  - cbn [emit csize].
-    match goal with |- context [emit c t ?x tbl] => specialize (IHt x tbl); destruct (emit c t x tbl) as [cr t1] end.
-    cbn [fst] in *. rewrite !zlen_app, IHt.
-    destruct (counted m n), (m =? 0); rewrite ?zlen_cons, ?zlen_nil; lia.
-  - cbn [emit csize]. destruct (emit_capture c g u).
-    + specialize (IHt (aa + 1) tbl). destruct (emit c t (aa + 1) tbl) as [cr t1]. cbn [fst] in *.
-      rewrite !zlen_app, IHt, !zlen_cons, zlen_nil. lia.
-    + apply IHt.
-  - cbn [emit csize]. apply IHt.
-  - cbn [emit csize]. specialize (IHt (aa + 2) tbl). destruct (emit c t (aa + 2) tbl) as [cr t1]. cbn [fst] in *.
-    rewrite !zlen_app, IHt, !zlen_cons, zlen_nil. lia.
-  - cbn [emit csize]. specialize (IHt (aa + 3) tbl). destruct (emit c t (aa + 3) tbl) as [cr t1]. cbn [fst] in *.
-    rewrite !zlen_app, IHt, !zlen_cons, zlen_nil. lia.
-  - cbn [emit csize]. specialize (IHt (aa + 1) tbl). destruct (emit c t (aa + 1) tbl) as [cr t1]. cbn [fst] in *.
-    rewrite !zlen_app, IHt, !zlen_cons, zlen_nil. lia.
-  - cbn [emit csize]. specialize (IHt (aa + 6) tbl). destruct (emit c t (aa + 6) tbl) as [cy t1]. cbn [fst] in *.
-    destruct no as [x|]; cbn [opt_all] in *.
-    + match goal with |- context [emit c x ?y t1] => specialize (H y t1); destruct (emit c x y t1) as [cn t2] end.
-      cbn [fst] in *. rewrite !zlen_app, IHt, H, !zlen_cons, zlen_nil. lia.
-    + cbn [fst]. rewrite !zlen_app, IHt, !zlen_cons, zlen_nil. lia.
-  - cbn [emit csize]. specialize (IHt1 (aa + 4) tbl). destruct (emit c t1 (aa + 4) tbl) as [cc t1']. cbn [fst] in *.
-    match goal with |- context [emit c t2 ?y t1'] => specialize (IHt2 y t1'); destruct (emit c t2 y t1') as [cy t2'] end.
-    cbn [fst] in *.
-    destruct no as [x|]; cbn [opt_all] in *.
-    + match goal with |- context [emit c x ?y t2'] => specialize (H y t2'); destruct (emit c x y t2') as [cn t3] end.
-      cbn [fst] in *. rewrite !zlen_app, IHt1, IHt2, H, !zlen_cons, zlen_nil. lia.
-    + cbn [fst]. rewrite !zlen_app, IHt1, IHt2, !zlen_cons, zlen_nil. lia.
-Qed.
-
-(* ---------- list_set / capture-array facts ---------- *)
-Lemma cc_list_set_length {A} (l : list A) n x : length (list_set l n x) = length l.
-Proof. revert n; induction l as [|h l IH]; intros [|n]; cbn [list_set length]; try reflexivity. rewrite IH. reflexivity. Qed.
-Lemma cc_nth_list_set_same {A} (l : list A) n x d : (n < length l)%nat -> nth n (list_set l n x) d = x.
-Proof. revert n; induction l as [|h l IH]; intros [|n] H; cbn [list_set nth length] in *; try lia; [reflexivity|]. apply IH. lia. Qed.
-Lemma cc_nth_list_set_other {A} (l : list A) n m x d : n <> m -> nth m (list_set l n x) d = nth m l d.
-Proof.
-  revert n m; induction l as [|h l IH]; intros [|n] [|m] H; cbn [list_set nth]; try reflexivity; try congruence.
-  apply IH. congruence.
-Qed.
-Lemma cc_list_set_set {A} (l : list A) n x y : list_set (list_set l n x) n y = list_set l n y.
-Proof. revert n; induction l as [|h l IH]; intros [|n]; cbn [list_set]; try reflexivity. rewrite IH. reflexivity. Qed.
-Lemma cc_list_set_id {A} (l : list A) n d : list_set l n (nth n l d) = l.
-Proof. revert n; induction l as [|h l IH]; intros [|n]; cbn [list_set nth]; try reflexivity. rewrite IH. reflexivity. Qed.
-
-Lemma cc_znth_nth {A} (l : list A) g d : 0 <= g < zlen l -> znth l g = Some (nth (Z.to_nat g) l d).
-Proof.
-  intros H. unfold znth. replace (g <? 0) with false by lia. apply nth_error_nth'. unfold zlen in H. lia.
-Qed.
-Lemma cc_znth_some_nth {A} (l : list A) g d x : znth l g = Some x -> nth (Z.to_nat g) l d = x /\ 0 <= g < zlen l.
-Proof.
-  unfold znth. destruct (g <? 0) eqn:E; [discriminate|]. intros H. split.
-  - apply nth_error_nth. exact H.
-  - assert (Hl : (Z.to_nat g < length l)%nat) by (apply nth_error_Some; congruence). unfold zlen. lia.
-Qed.
-
-Lemma cc_flat_app a b : flat (a ++ b) = flat a ++ flat b.
-Proof. induction a as [|[i n] a IH]; cbn [flat app]; [reflexivity|]. rewrite IH. reflexivity. Qed.
-
-Lemma cc_remove_match_set M g arr x y :
-  znth M g = Some arr -> remove_match g (mc_set g (arr ++ [x; y]) M) = Some M.
-Proof.
-  intros H. pose proof (cc_znth_some_nth M g [] arr H) as [Hn Hg].
-  unfold remove_match, mc_get, mc_set.
-  assert (Hl : (Z.to_nat g < length M)%nat) by (unfold zlen in Hg; lia).
-  rewrite (cc_znth_nth _ g []) by (unfold zlen; rewrite cc_list_set_length; unfold zlen in Hg; lia).
-  rewrite cc_nth_list_set_same by exact Hl.
-  rewrite zlen_app. replace (zlen arr + zlen [x; y] <? 2) with false by (pose proof (zlen_nonneg arr); cbn; lia).
-  rewrite cc_list_set_set. f_equal.
-  rewrite app_length. cbn [length]. replace (length arr + 2 - 2)%nat with (length arr + 0)%nat by lia.
-  rewrite firstn_app_2. cbn [firstn]. rewrite app_nil_r. rewrite <- Hn. apply cc_list_set_id.
-Qed.
-
-(* ---------- properties of [supported] / [groups_ok] ---------- *)
-Lemma cc_supported_list_forall l : supported_list l = true -> Forall (fun t => supported t = true) l.
-Proof.
-  induction l as [|x l IH]; cbn [supported_list]; intros H; [constructor|].
-  apply andb_prop in H. destruct H as [Hx Hl]. constructor; [exact Hx|apply IH; exact Hl].
-Qed.
-
-Lemma cc_groups_list cs l : sb_all_list (grp_ok_node cs) l -> Forall (groups_ok cs) l.
-Proof.
-  induction l as [|x l IH]; intros H; [constructor|]. destruct H as [Hx Hl]. constructor; [exact Hx|apply IH; exact Hl].
-Qed.
-
-Lemma cc_supported_min_ok : forall t, supported t = true -> loops_min_ok t.
-Proof.
-  unfold loops_min_ok.
-  induction t using node_ind'; intros Hs; cbn [supported] in Hs; try discriminate Hs;
-    cbn [sb_all sb_min_ok]; try (split; exact I).
-  - split; [exact I|]. change (supported_list l = true) in Hs. apply cc_supported_list_forall in Hs.
-    induction H as [|x l Hx Hl IH]; [exact I|]. inversion Hs; subst. split; [apply Hx; assumption|apply IH; assumption].
-  - split; [exact I|]. apply andb_prop in Hs. destruct Hs as [_ Hs].
-    change (supported_list l = true) in Hs. apply cc_supported_list_forall in Hs.
-    induction H as [|x l Hx Hl IH]; [exact I|]. inversion Hs; subst. split; [apply Hx; assumption|apply IH; assumption].
-  - apply andb_prop in Hs. destruct Hs as [_ Hs]. split; [exact I|apply IHt; exact Hs].
-  - split; [exact I|apply IHt; exact Hs].
-Qed.
 
 Section CC.
 Variable e : env.
@@ -183,296 +22,9 @@ Notation has_code := (CompileBase.has_code p).
 Notation track_ok := (CompileBase.track_ok p).
 Notation caps_rel := (CompileBase.caps_rel p).
 
-Definition code_ex (a : Z) : Prop := exists w, code_at p a = Some w.
-
-Lemma cc_code_ex_start a ws : has_code a ws -> code_ex (a + zlen ws) -> code_ex a.
-Proof.
-  intros H Hx. destruct ws as [|w ws].
-  - rewrite zlen_nil, Z.add_0_r in Hx. exact Hx.
-  - apply has_code_cons in H. destruct H as [H _]. exists w. exact H.
-Qed.
-
-Lemma cc_caps_rel_push c M g iv : caps_rel c M -> 0 <= g < capsize p ->
-  caps_rel (cap_push g iv c) (mc_set g (nth (Z.to_nat g) M [] ++ [fst iv; snd iv]) M).
-Proof.
-  intros [Hl Hc] Hg. split.
-  - unfold mc_set, zlen. rewrite cc_list_set_length. exact Hl.
-  - intros g' Hg'. unfold mc_set, cap_push. destruct (Z.eq_dec g' g) as [->|Hne].
-    + rewrite cc_nth_list_set_same by (unfold zlen in Hl; lia).
-      rewrite sb_cap_get_set_same. cbn [rev]. rewrite cc_flat_app. rewrite Hc by exact Hg.
-      destruct iv as [i n]. reflexivity.
-    + rewrite cc_nth_list_set_other by lia. rewrite sb_cap_get_set_other by exact Hne. apply Hc. exact Hg'.
-Qed.
-
-(* what has to be shown for one node at one fuel level *)
-Definition ok_node (f : nat) (t : node) : Prop :=
-  forall s res, sem e f t s = Ok res -> st_ok e s ->
-  forall a tbl T S C M, has_code a (fst (emit cfg0 t a tbl)) -> code_ex (a + csize cfg0 t) ->
-    track_ok T -> caps_rel (caps s) M ->
-    leadsg (a + csize cfg0 t) T S S C M (mkr a 0 (pos s) T S C M) res.
-
-Definition ok_at (f : nat) : Prop :=
-  forall t, supported t = true -> groups_ok (capsize p) t -> ok_node f t.
-
-(* ---------- leaves ---------- *)
-Lemma cc_char f k o c : ok_node (S f) (NChar k o c).
-Proof.
-  intros s res Hsem Hst a tbl T S C M Hc Hex Hk Hr.
-  cbn [sem] in Hsem. injection Hsem as <-.
-  cbn [emit fst csize] in *.
-  apply has_code_cons in Hc. destruct Hc as [H0 Hc]. apply has_code_cons in Hc. destruct Hc as [H1 _].
-  destruct Hex as [w2 H2]. destruct Hst as [Hp _].
-  destruct ((0 <? avail e o (pos s)) && char_test e k c (next_char e o (pos s))) eqn:E.
-  - apply leadsg_leaf; [exact Hk|exact Hr|]. cbn [pos with_pos]. eapply rs_char_ok; eassumption.
-  - destruct Hk as (np & T' & -> & w3 & H3). eapply leadsg_fail; [reflexivity|]. eapply rs_char_fail; eassumption.
-Qed.
-
-Lemma cc_anchor f an : ok_node (S f) (NAnchor an).
-Proof.
-  intros s res Hsem Hst a tbl T S C M Hc Hex Hk Hr.
-  cbn [sem] in Hsem. injection Hsem as <-.
-  cbn [emit fst csize] in *.
-  apply has_code_cons in Hc. destruct Hc as [H0 _].
-  destruct Hex as [w2 H2]. destruct Hst as [Hp _].
-  pose proof Hk as (np & T' & -> & w3 & H3).
-  assert (G : rsteps (mkr a 0 (pos s) (np :: T') S C M)
-            (if anchor_ok e an (pos s) then mkr (a + 1) 0 (pos s) (np :: T') S C M else bkr np (pos s) T' S C M))
-    by (eapply rs_anchor; eassumption).
-  destruct (anchor_ok e an (pos s)).
-  - apply leadsg_leaf; [exact Hk|exact Hr|exact G].
-  - eapply leadsg_fail; [reflexivity|exact G].
-Qed.
-
-Lemma cc_nothing f : ok_node (S f) NNothing.
-Proof.
-  intros s res Hsem Hst a tbl T S C M Hc Hex Hk Hr.
-  cbn [sem] in Hsem. injection Hsem as <-.
-  cbn [emit fst csize] in *.
-  apply has_code_cons in Hc. destruct Hc as [H0 _].
-  destruct Hk as (np & T' & -> & w3 & H3). eapply leadsg_fail; [reflexivity|]. eapply rs_nothing; eassumption.
-Qed.
-
-Lemma cc_empty f : ok_node (S f) NEmpty.
-Proof.
-  intros s res Hsem Hst a tbl T S C M Hc Hex Hk Hr.
-  cbn [sem] in Hsem. injection Hsem as <-.
-  cbn [csize]. rewrite Z.add_0_r. apply leadsg_leaf; [exact Hk|exact Hr|apply rsteps_refl].
-Qed.
-
-Lemma cc_bump f : ok_node (S f) NBump.
-Proof.
-  intros s res Hsem Hst a tbl T S C M Hc Hex Hk Hr.
-  cbn [sem] in Hsem. injection Hsem as <-.
-  cbn [emit fst csize] in *.
-  apply has_code_cons in Hc. destruct Hc as [H0 _]. destruct Hex as [w2 H2].
-  apply leadsg_leaf; [exact Hk|exact Hr|]. eapply rs_bump; eassumption.
-Qed.
-
-(* ---------- results stay inside the text ---------- *)
-Lemma cc_res_ok f t s res : supported t = true -> sem e f t s = Ok res -> st_ok e s -> Forall (st_ok e) res.
-Proof. intros Hs H Hst. eapply sb_sem_in_bounds; [apply cc_supported_min_ok; exact Hs|exact H|exact Hst]. Qed.
-
-Lemma cc_res_ok_in f t s res q : supported t = true -> sem e f t s = Ok res -> st_ok e s -> In q res -> st_ok e q.
-Proof. intros Hs H Hst Hin. pose proof (cc_res_ok f t s res Hs H Hst) as F. rewrite Forall_forall in F. apply F. exact Hin. Qed.
-
-(* ---------- Group ---------- *)
-Lemma cc_group f r : ok_node f r -> ok_node (S f) (NGroup r).
-Proof. intros Hr s res Hsem. cbn [sem] in Hsem. cbn [emit csize]. apply Hr. exact Hsem. Qed.
-
-(* ---------- Concat ---------- *)
-Definition seqf (f : nat) : list node -> st -> res (list st) :=
-  fix seq (l : list node) (s : st) : res (list st) :=
-    match l with
-    | [] => Ok [s]
-    | x :: l' => bindr (sem e f x s) (seq l')
-    end.
-
-Lemma cc_concat_list f : ok_at f -> forall l,
-  Forall (fun t => supported t = true) l -> Forall (groups_ok (capsize p)) l ->
-  forall s res, seqf f l s = Ok res -> st_ok e s ->
-  forall a tbl T S C M, has_code a (fst (emit_seq cfg0 l a tbl)) -> code_ex (a + csize_seq cfg0 l) ->
-    track_ok T -> caps_rel (caps s) M ->
-    leadsg (a + csize_seq cfg0 l) T S S C M (mkr a 0 (pos s) T S C M) res.
-Proof.
-  intros Hok. induction l as [|x l IH]; intros Hsl Hgl s res Hsem Hst a tbl T S C M Hc Hex Hk Hr.
-  - cbn [seqf] in Hsem. injection Hsem as <-. cbn [csize_seq]. rewrite Z.add_0_r.
-    apply leadsg_leaf; [exact Hk|exact Hr|apply rsteps_refl].
-  - inversion Hsl as [|? ? Hsx Hsl']; subst. inversion Hgl as [|? ? Hgx Hgl']; subst.
-    cbn [seqf] in Hsem. apply sp_bindr_ok in Hsem. destruct Hsem as [la [Hla Hb]].
-    cbn [emit_seq] in Hc. pose proof (emit_length cfg0 x a tbl) as Lx.
-    destruct (emit cfg0 x a tbl) as [cx t1] eqn:Ex. cbn [fst] in Lx. rewrite Lx in Hc.
-    destruct (emit_seq cfg0 l (a + csize cfg0 x) t1) as [cr t2] eqn:Er. cbn [fst] in Hc.
-    apply has_code_app in Hc. destruct Hc as [Hcx Hcr]. rewrite Lx in Hcr.
-    assert (Lr : zlen cr = csize_seq cfg0 l).
-    { replace cr with (fst (emit_seq cfg0 l (a + csize cfg0 x) t1)) by (rewrite Er; reflexivity).
-      apply emit_seq_length. apply Forall_forall. intros t _. apply emit_length. }
-    cbn [csize_seq] in *. rewrite Z.add_assoc in *.
-    assert (Hexx : code_ex (a + csize cfg0 x)).
-    { eapply cc_code_ex_start; [exact Hcr|]. rewrite Lr. exact Hex. }
-    eapply leadsg_bindl with (m := a + csize cfg0 x) (Ss1 := S) (f := seqf f l); [|exact Hb|].
-    + apply (Hok x Hsx Hgx s la Hla Hst a tbl T S C M); [rewrite Ex; exact Hcx|exact Hexx|exact Hk|exact Hr].
-    + intros q rq T' C' M' Hin Hq Hcq Hu Hkq.
-      apply IH with (tbl := t1); try assumption.
-      * eapply cc_res_ok_in; eassumption.
-      * rewrite Er. exact Hcr.
-Qed.
-
-Lemma cc_concat f o l : ok_at f -> supported (NConcat o l) = true -> groups_ok (capsize p) (NConcat o l) ->
-  ok_node (S f) (NConcat o l).
-Proof.
-  intros Hok Hs Hg s res Hsem Hst a tbl T S C M Hc Hex Hk Hr.
-  cbn [sem] in Hsem. change (seqf f l s = Ok res) in Hsem.
-  rewrite wr_emit_concat_eq in Hc. rewrite wr_csize_concat_eq in *.
-  eapply cc_concat_list; try eassumption.
-  - apply cc_supported_list_forall. exact Hs.
-  - apply cc_groups_list. destruct Hg as [_ Hg]. exact Hg.
-Qed.
-
-(* ---------- Alternate ---------- *)
-Definition altf (f : nat) (s : st) : list node -> res (list st) :=
-  fix alt (l : list node) : res (list st) :=
-    match l with
-    | [] => Ok []
-    | x :: l' => appr (sem e f x s) (alt l')
-    end.
-
-Lemma cc_alt_list f lend : ok_at f -> forall l, l <> [] ->
-  Forall (fun t => supported t = true) l -> Forall (groups_ok (capsize p)) l ->
-  forall s res, altf f s l = Ok res -> st_ok e s ->
-  forall a tbl T S C M, has_code a (fst (emit_alt cfg0 lend l a tbl)) -> lend = a + csize_alt cfg0 l ->
-    code_ex lend -> track_ok T -> caps_rel (caps s) M ->
-    leadsg lend T S S C M (mkr a 0 (pos s) T S C M) res.
-Proof.
-  intros Hok. induction l as [|x l IH]; intros Hne Hsl Hgl s res Hsem Hst a tbl T S C M Hc Hl Hex Hk Hr;
-    [congruence|].
-  inversion Hsl as [|? ? Hsx Hsl']; subst l0 x0. inversion Hgl as [|? ? Hgx Hgl']; subst l0 x0.
-  cbn [altf] in Hsem. apply sp_appr_ok in Hsem. destruct Hsem as (rx & ry & Hrx & Hry & ->).
-  destruct l as [|y l'].
-  - cbn [altf] in Hry. injection Hry as <-. rewrite app_nil_r.
-    cbn [emit_alt csize_alt] in *. subst lend.
-    apply (Hok x Hsx Hgx s rx Hrx Hst a tbl T S C M); assumption.
-  - rewrite wr_emit_alt_cons2 in Hc. rewrite wr_csize_alt_cons2 in Hl.
-    pose proof (emit_length cfg0 x (a + 2) tbl) as Lx.
-    destruct (emit cfg0 x (a + 2) tbl) as [cx t1] eqn:Ex. cbn [fst] in Lx. cbv zeta in Hc.
-    destruct (emit_alt cfg0 lend (y :: l') (a + 2 + zlen cx + 2) t1) as [cr t2] eqn:Er. cbn [fst] in Hc.
-    rewrite Lx in *.
-    apply has_code_cons in Hc. destruct Hc as [H0 Hc]. apply has_code_cons in Hc. destruct Hc as [H1 Hc].
-    replace (a + 1 + 1) with (a + 2) in Hc by lia.
-    apply has_code_app in Hc. destruct Hc as [Hcx Hc]. rewrite Lx in Hc.
-    apply has_code_cons in Hc. destruct Hc as [Hg0 Hc]. apply has_code_cons in Hc. destruct Hc as [Hg1 Hcr].
-    replace (a + 2 + csize cfg0 x + 1 + 1) with (a + 2 + csize cfg0 x + 2) in Hcr by lia.
-    pose proof (code_at_nonneg p _ _ H0) as Ha.
-    destruct Hex as [wl Hwl].
-    eapply leadsg_pre.
-    { eapply rs_lazybranch; try exact tc_nonneg; [exact H0|exact H1|].
-      instantiate (1 := match cx with [] => Goto | w :: _ => w end).
-      destruct cx as [|w cx']; [rewrite <- Lx, zlen_nil, Z.add_0_r in Hg0; exact Hg0|].
-      apply has_code_cons in Hcx. destruct Hcx as [Hcx _]. exact Hcx. }
-    eapply leadsg_app with (T1 := [a; pos s]) (Cx := []) (Sf1 := S) (M1 := M); [|reflexivity|].
-    + eapply leadsg_exit_map with (m := a + 2 + csize cfg0 x).
-      { intros t T0 C0 M0. eapply rs_goto; eassumption. }
-      apply (Hok x Hsx Hgx s rx Hrx Hst (a + 2) tbl ([a; pos s] ++ T) S C M).
-      * rewrite Ex. exact Hcx.
-      * exists Goto. exact Hg0.
-      * cbn [app]. eapply track_ok_cons. rewrite Z.abs_eq by lia. exact H0.
-      * exact Hr.
-    + intros np T' t HT. cbn [app] in HT. injection HT as <- <-.
-      rewrite bkr_pos by exact Ha.
-      eapply leadsg_pre.
-      { eapply rs_lazybranch_back; try exact tc_nonneg; [exact H0|exact H1|].
-        instantiate (1 := match cr with [] => wl | w :: _ => w end).
-        destruct cr as [|w cr'].
-        - assert (Lr : zlen (fst (emit_alt cfg0 lend (y :: l') (a + 2 + csize cfg0 x + 2) t1)) = csize_alt cfg0 (y :: l')).
-          { apply emit_alt_length. apply Forall_forall. intros t0 _. apply emit_length. }
-          rewrite Er in Lr. cbn [fst] in Lr. rewrite zlen_nil in Lr.
-          replace (a + 2 + csize cfg0 x + 2) with lend by lia. exact Hwl.
-        - apply has_code_cons in Hcr. destruct Hcr as [Hcr _]. exact Hcr. }
-      apply IH with (tbl := t1); try assumption.
-      * discriminate.
-      * rewrite Er. exact Hcr.
-      * lia.
-      * exists wl. exact Hwl.
-Qed.
-
-Lemma cc_alternate f o l : ok_at f -> supported (NAlternate o l) = true -> groups_ok (capsize p) (NAlternate o l) ->
-  ok_node (S f) (NAlternate o l).
-Proof.
-  intros Hok Hs Hg s res Hsem Hst a tbl T S C M Hc Hex Hk Hr.
-  cbn [sem] in Hsem. change (altf f s l = Ok res) in Hsem.
-  rewrite wr_emit_alternate_eq in Hc.
-  cbn [supported] in Hs. apply andb_prop in Hs. destruct Hs as [Hne Hs].
-  eapply cc_alt_list; try eassumption.
-  - destruct l; [discriminate|discriminate].
-  - apply cc_supported_list_forall. exact Hs.
-  - apply cc_groups_list. destruct Hg as [_ Hg]. exact Hg.
-  - reflexivity.
-Qed.
-
-(* ---------- Capture (plain) ---------- *)
-Lemma cc_sem_capture f o g r s :
-  sem e (S f) (NCapture o g (-1) r) s =
-  bindr (sem e f r s) (fun s' => Ok [{| pos := pos s'; caps := cap_push g (span (pos s) (pos s')) (caps s') |}]).
-Proof. reflexivity. Qed.
-
-Lemma cc_emit_capture o g r a tbl : 0 <= g ->
-  emit cfg0 (NCapture o g (-1) r) a tbl =
-  (let '(cr, t1) := emit cfg0 r (a + 1) tbl in ([Setmark] ++ cr ++ [Capturemark; g; -1], t1)).
-Proof.
-  intros Hg. cbn [emit]. unfold emit_capture, map_capnum. cbn [quick cfg0 capmap].
-  replace (g =? -1) with false by lia. reflexivity.
-Qed.
-
-Lemma cc_capture f o g r : ok_node f r -> supported r = true -> 0 <= g < capsize p ->
-  ok_node (S f) (NCapture o g (-1) r).
-Proof.
-  intros Hokr Hsr Hg s res Hsem Hst a tbl T S C M Hc Hex Hk Hr.
-  rewrite cc_sem_capture in Hsem. apply sp_bindr_ok in Hsem. destruct Hsem as [la [Hla Hb]].
-  rewrite cc_emit_capture in Hc by lia.
-  pose proof (emit_length cfg0 r (a + 1) tbl) as Lr.
-  destruct (emit cfg0 r (a + 1) tbl) as [cr t1] eqn:Er. cbn [fst] in Lr, Hc.
-  replace (csize cfg0 (NCapture o g (-1) r)) with (1 + csize cfg0 r + 3) in * by reflexivity.
-  apply has_code_cons in Hc. destruct Hc as [H0 Hc].
-  apply has_code_app in Hc. destruct Hc as [Hcr Hc]. rewrite Lr in Hc.
-  apply has_code_cons in Hc. destruct Hc as [Hm0 Hc]. apply has_code_cons in Hc. destruct Hc as [Hm1 Hc].
-  apply has_code_cons in Hc. destruct Hc as [Hm2 _].
-  set (m := a + 1 + csize cfg0 r) in *.
-  replace (a + (1 + csize cfg0 r + 3)) with (m + 3) in * by (unfold m; lia).
-  pose proof (code_at_nonneg p _ _ H0) as Ha. pose proof (code_at_nonneg p _ _ Hm0) as Hm.
-  replace (m + 1 + 1) with (m + 2) in Hm2 by lia.
-  destruct Hex as [wx Hwx].
-  assert (Hex1 : code_ex (a + 1)).
-  { eapply cc_code_ex_start; [exact Hcr|]. rewrite Lr. exists Capturemark. exact Hm0. }
-  destruct Hex1 as [w1 Hw1].
-  eapply leadsg_pre. { eapply rs_setmark; try exact tc_nonneg; eassumption. }
-  rewrite <- (app_nil_r res).
-  eapply leadsg_app with (T1 := [a]) (Cx := []) (Sf1 := pos s :: S) (M1 := M); [|reflexivity|].
-  - cbn [app].
-    eapply leadsg_bindl with (m := m) (Ss1 := pos s :: S); [|exact Hb|].
-    + apply (Hokr s la Hla Hst (a + 1) tbl (a :: T) (pos s :: S) C M).
-      * rewrite Er. exact Hcr.
-      * exists Capturemark. exact Hm0.
-      * eapply track_ok_cons. rewrite Z.abs_eq by lia. exact H0.
-      * exact Hr.
-    + intros q rq T' C' M' Hin Hq Hcq Hu Hkq. injection Hq as <-.
-      destruct Hcq as [HlM HcM].
-      assert (Hzn : znth M' g = Some (nth (Z.to_nat g) M' [])) by (apply cc_znth_nth; lia).
-      exists [m; pos s], [g], (mc_set g (nth (Z.to_nat g) M' [] ++ [Z.min (pos s) (pos q); Z.abs (pos q - pos s)]) M').
-      cbn [pos caps].
-      split. { apply (cc_caps_rel_push (caps q) M' g (span (pos s) (pos q))); [split; assumption|exact Hg]. }
-      split. { cbn [unwind]. rewrite cc_remove_match_set by exact Hzn. reflexivity. }
-      split. { cbn [app]. eapply track_ok_cons. rewrite Z.abs_eq by lia. exact Hm0. }
-      split. { cbn [app]. eapply rs_capturemark; try exact tc_nonneg; eassumption. }
-      intros np T'' t HT. cbn [app] in HT. injection HT as <- <-.
-      rewrite bkr_pos by exact Hm.
-      destruct Hkq as (np' & T3 & HT3 & w3 & Hw3).
-      eapply leadsg_fail; [exact HT3|].
-      rewrite HT3. eapply rs_capturemark_back; try exact tc_nonneg; try eassumption.
-      apply cc_remove_match_set. exact Hzn.
-  - intros np T' t HT. cbn [app] in HT. injection HT as <- <-.
-    rewrite bkr_pos by exact Ha. destruct Hk as (np' & T3 & -> & w3 & Hw3).
-    eapply leadsg_fail; [reflexivity|].
-    eapply rs_mark_back; try exact tc_nonneg; try eassumption. left. reflexivity.
-Qed.
+Notation code_ex := (CompileDefs.code_ex p).
+Notation ok_node := (CompileDefs.ok_node e p).
+Notation ok_at := (CompileDefs.ok_at e p).
 
 (* ---------- the main induction ---------- *)
 Theorem cc_all_ok : forall f, ok_at f.
@@ -480,15 +32,15 @@ Proof.
   induction f as [|f IH]; intros t Hs Hg.
   - intros s res Hsem. discriminate Hsem.
   - destruct t; try discriminate Hs.
-    + apply cc_char.
-    + apply cc_anchor.
-    + apply cc_nothing.
+    + apply cc_char; exact tc_nonneg.
+    + apply cc_anchor; exact tc_nonneg.
+    + apply cc_nothing; exact tc_nonneg.
     + apply cc_empty.
     + apply cc_bump.
     + apply cc_concat; assumption.
     + apply cc_alternate; assumption.
     + cbn [supported] in Hs. apply andb_prop in Hs. destruct Hs as [Hu Hs]. apply Z.eqb_eq in Hu. subst u.
-      destruct Hg as [Hg0 Hg]. apply cc_capture; [apply IH; assumption|exact Hs|exact Hg0].
+      destruct Hg as [Hg0 Hg]. apply cc_capture; [exact tc_nonneg|apply IH; assumption|exact Hs|exact Hg0].
     + apply cc_group. apply IH; [exact Hs|]. destruct Hg as [_ Hg]. exact Hg.
 Qed.
 
